@@ -2,7 +2,7 @@
 
    The state machine of the second-factor handlers of cmd/keymasterd over operation histories:
 
-     loginHandler (app.go)                      Login
+     loginHandler (app.go)                      Login       (with any auth_cookie values attached to the request)
      logoutHandler                              Logout      (the JWT stays valid: no server state)
      VIPAuthHandler (2fa_vip.go)                VipOtp
      vipPushStartHandler / startVIPPush         PushStart
@@ -150,7 +150,9 @@ Record assertion := { a_owner : N; a_wa_key : bool; a_chal : N }.       (* signe
    certificate of user `cert` (if any), while profile writes fail (`fault`: the primary database
    is readable but not writable).  A bare operation is Req None false. *)
 Inductive op :=
-| Login (u : N) (pw_ok : bool)
+| Login (u : N) (pw_ok : bool) (cs : list nat)   (* loginHandler; cs: the auth_cookie values the client attached to
+                                                   the login request (any the server ever issued: own, another user's,
+                                                   expired; an index that names nothing: junk) *)
 | Logout (cs : list nat)
 | VipOtp (cs : list nat) (code : otpcode)
 | PushStart (cs : list nat) (v : N)
@@ -282,7 +284,10 @@ Definition find_vip (s : st) (v : N) : option vipentry :=
 (* one request; `cert`: verified client certificate, `fault`: SaveUserProfile fails *)
 Definition step_req (cert : option N) (fault : bool) (s : st) (o : op) : st * option cookie :=
   match o with
-  | Login u ok =>
+  | Login u ok cs =>
+      (* the login credential is the password alone: whatever auth_cookie values come with the request
+         (`cs`: a session of the same user with second factors, valid or expired; another user's; junk) are
+         not looked at — the new session starts now, at the password level *)
       if ok then
         let c := {| cuser := u; clevel := add 0 F_PW; ciat := now s; cexp := (now s + cookie_life k)%Z |} in
         let s0 := if okta_on k   (* the authn API answered with a NEW state token, cached until its expiresAt *)
@@ -577,6 +582,19 @@ Fixpoint run (k : config) (s : st) (ops : list op) : st * list (option cookie) :
   | o :: r => let (s1, out) := step k s o in
               let (s2, outs) := run k s1 r in (s2, out :: outs)
   end.
+
+(* ---- a loginHandler that lets the new session keep the second factors of the session cookie that came with
+        the login request (for contrast only: c05_login_carry_refuted).  Of the attached auth_cookie values the
+        last one counts; it must verify and name the very user who logs in; its exp claim is not looked at ---- *)
+Definition second_factors : N := 2 ^ F_U2F + 2 ^ F_FIDO2 + 2 ^ F_TOTP + 2 ^ F_VIP + 2 ^ F_OKTA.
+Definition login_carry_level (s : st) (u : N) (cs : list nat) : N :=
+  match pick_sel true (attached s cs) with
+  | Some c => if N.eqb (cuser c) u then N.lor (add 0 F_PW) (N.land (clevel c) second_factors) else add 0 F_PW
+  | None => add 0 F_PW
+  end.
+Definition login_carry (k : config) (s : st) (u : N) (cs : list nat) : st * option cookie :=
+  let c := {| cuser := u; clevel := login_carry_level s u cs; ciat := now s; cexp := (now s + cookie_life k)%Z |} in
+  (set_ghost (set_issued s (issued s ++ [c])) ((u, F_PW, now s) :: proved s) (spent s), Some c).
 
 (* the code as repaired; `ok`: the password backend is the Okta authenticator, whose cached answers
    live `life` seconds *)
